@@ -248,9 +248,59 @@ let op_spec_canon f = field_of_text (canon_ip6 (text_of_field_nn f.(1)))
 let op_spec_resolve f =
   let strict = bool_of_field f.(1) in
   let b = text_of_field_nn f.(2) and r = text_of_field_nn f.(3) in
-  Printf.sprintf "%s %d" (match resolve_text strict b r with Some t -> field_of_text t | None -> "-")
+  Printf.sprintf "%s %d" (match resolve_text strict b r with Some t -> field_of_text (canon_ip6 t) | None -> "-")
     (if resolve_corner strict b r then 1 else 0)
 let op_spec_normal f = field_of_text (normal_text (text_of_field_nn f.(1)))
+
+(* histories: same mini-language as harness/drv_uri.inc:op_hist *)
+let op_hist f =
+  let nslot = 8 in
+  let slot : uri option array = Array.make nslot None in
+  let buf = Buffer.create 256 in
+  Buffer.add_string buf "hist";
+  let show rc k =
+    (match rc, slot.(k) with
+     | 0, Some u -> Buffer.add_string buf (Printf.sprintf "0 %s%s M=%d" (string_of_uri u) (text_tag u) (int_of_n (mask_required u)))
+     | rc, _ -> Buffer.add_string buf (Printf.sprintf "%d E" rc)) in
+  for fi = 1 to Array.length f - 1 do
+    let st = f.(fi) in
+    let op = st.[0] and k = Char.code st.[1] - Char.code '0' in
+    let arg = if String.length st > 2 && st.[2] = '=' then String.sub st 3 (String.length st - 3) else "" in
+    Buffer.add_string buf " | ";
+    if k < 0 || k >= nslot then Buffer.add_string buf "badslot"
+    else begin match op with
+      | 'p' ->
+        (match parse (text_of_field_nn arg) with
+         | POk u -> slot.(k) <- Some u; show 0 k
+         | PSyntax _ -> slot.(k) <- None; show 1 k)
+      | 'a' | 'r' ->
+        (match List.map int_of_string (String.split_on_char ',' arg) with
+         | [i; j; o] when i >= 0 && j >= 0 && i < nslot && j < nslot && k <> i && k <> j
+                          && slot.(i) <> None && slot.(j) <> None ->
+           let x = (match slot.(i) with Some x -> x | None -> assert false)
+           and y = (match slot.(j) with Some y -> y | None -> assert false) in
+           let (rc, d) = if op = 'a' then add_base (o <> 0) x y else remove_base (o <> 0) x y in
+           let rc = int_of_n rc in
+           if rc = 0 then (slot.(k) <- Some (make_owner d); show 0 k) else (slot.(k) <- None; show rc k)
+         | _ -> Buffer.add_string buf "skip")
+      | 'n' ->
+        (match slot.(k) with
+         | Some u -> slot.(k) <- Some (normalize (n_of_int (int_of_string arg)) u); show 0 k
+         | None -> Buffer.add_string buf "skip")
+      | 'o' ->
+        (match slot.(k) with
+         | Some u -> slot.(k) <- Some (make_owner u); show 0 k
+         | None -> Buffer.add_string buf "skip")
+      | 'e' ->
+        let i = int_of_string arg in
+        if i < 0 || i >= nslot || slot.(k) = None || slot.(i) = None then Buffer.add_string buf "skip"
+        else Buffer.add_string buf (Printf.sprintf "eq=%d" (if equals_uri slot.(k) slot.(i) then 1 else 0))
+      | 'f' -> slot.(k) <- None; Buffer.add_string buf "freed"
+      | _ -> Buffer.add_string buf "badop"
+    end
+  done;
+  Buffer.add_string buf " | end live=0 bad=0";
+  Buffer.contents buf
 
 let dispatch (f : string array) : string =
   match f.(0) with
@@ -272,6 +322,7 @@ let dispatch (f : string array) : string =
   | "spec_resolve" -> op_spec_resolve f
   | "spec_normal" -> op_spec_normal f
   | "shape_c06" -> string_of_int (int_of_n (c06_shape (text_of_field_nn f.(1)) (text_of_field_nn f.(2))))
+  | "hist" -> op_hist f
   | "suite" -> suite (int_of_string f.(1))
   | "spec_uri" -> spec_uri f
   | op -> "?unknown-op " ^ op
